@@ -24,63 +24,46 @@ MOD = "corankco.algorithms.pairwisebasedalgorithm"
 KERNEL = "_pairwise_cost_matrix_only"
 
 
-def _kernel_eval(f, positions, nb_elem, nb_rankings):
-    """Abstractly evaluate the kernel body. Returns (effects, evaluator)."""
-    params = f.param_names
-    if len(params) != 5:
-        raise AnalysisError(f"{f.qualname}: expected 5 parameters (positions, scheme, weights, nb_elem, nb_rankings)")
-    env = {
-        params[0]: positions,
-        params[1]: [Sym("B"), Sym("T")],
-        params[2]: Sym("w"),
-        params[3]: nb_elem,
-        params[4]: nb_rankings,
-    }
+WEIGHTS = [1.0, 10.0, 100.0, 1000.0]       # one recognisable weight per ranking: a coefficient tells which rankings paid
 
-    def zeros(ev, call):
-        return Sym("matrix")
 
-    evl = Evaluator(env, funcs={"zeros": zeros})
-    evl.opaque_ok = True
+def _kernel_eval(proj, f, positions, weights=None):
+    """The real kernel (whatever numpy idiom it uses) on a position matrix, with the scheme's two rows symbolic
+    (B[0..5], T[0..5]) and one distinct numeric weight per ranking. Returns the cost cube as nested lists of linear forms
+    [x][y][slot], or raises AnalysisError for a construct the evaluator does not model."""
+    from ..engines.instances import Runtime
+    from ..engines.stdlib import install
+    from ..engines.abseval import Mat, Vec
+    from ..engines.npmodel import Cube
+    key = id(proj)
+    if key not in _RT:
+        _RT.clear()
+        _RT[key] = install(Runtime(proj))
+    rt = _RT[key]
+    n, m = len(positions), len(positions[0]) if positions else 0
+    scheme = Mat([[Sym("B", (i,)) for i in range(6)], [Sym("T", (i,)) for i in range(6)]])
+    w = Vec(list(weights if weights is not None else WEIGHTS[:m]))
     try:
-        ret = evl.run(f.body_without_docstring())
+        ret = rt.invoke(f, [Mat([list(r) for r in positions]), scheme, w, n, m], {}, None)
     except Unsupported as exc:
         raise AnalysisError(f"{f.qualname}: unsupported construct at line {getattr(exc.node, 'lineno', '?')}: {exc}")
-    return ret, evl
+    if isinstance(ret, Cube):
+        return [[[Lin.of(v) for v in cell] for cell in row] for row in ret.data]
+    raise AnalysisError(f"{f.qualname}: returns {ret!r}, expected the (n x n x 3) cost matrix")
 
 
-def _weighted_roles(f, evl) -> Dict[str, str]:
-    """Opaque definitions `weighted_x = <row k of scheme> * weights[:, newaxis]` -> {'weighted_x': 'B'|'T'}."""
-    roles = {}
-    for name, rhs in evl.opaque.items():
-        if isinstance(rhs, ast.BinOp) and isinstance(rhs.op, ast.Mult):
-            sides = [rhs.left, rhs.right]
-            vec = [s for s in sides if isinstance(s, ast.Name)]
-            wt = [s for s in sides if isinstance(s, ast.Subscript)]
-            if len(vec) == 1 and len(wt) == 1 and isinstance(wt[0].value, ast.Name) \
-                    and wt[0].value.id == f.param_names[2]:
-                v = evl.env.get(vec[0].id)
-                sl = wt[0].slice
-                ok_slice = isinstance(sl, ast.Tuple) and len(sl.elts) == 2 and isinstance(sl.elts[0], ast.Slice) \
-                    and sl.elts[0].lower is None and sl.elts[0].upper is None and dotted(sl.elts[1]) in ("newaxis", "None", "np.newaxis", "numpy.newaxis")
-                if isinstance(v, Sym) and v.name in ("B", "T") and not v.idx and ok_slice:
-                    roles[name] = v.name
-                    continue
-        raise AnalysisError(f"{f.qualname}: cannot classify definition of `{name}` = {src(rhs)}")
-    return roles
+_RT: Dict[int, object] = {}
+PLACEMENTS = {0: "before", 1: "after", 2: "tied"}
 
 
-def _decode(value, roles, expect_rank):
-    """Abstract value of an update -> ('B'|'T', index) if it is roles[name][rank][index]."""
-    if isinstance(value, Lin) and len(value.terms) == 1 and value.const == 0:
-        (s, c), = value.terms.items()
-        if c == 1:
-            value = s
-    if isinstance(value, Sym) and value.name in roles and len(value.idx) == 2:
-        if value.idx[0] != expect_rank:
-            return None
-        return (roles[value.name], value.idx[1])
-    return None
+def _expected_cell(px: List[int], py: List[int], slot: int, weights) -> Lin:
+    """definitional cost of placing x before / after / tied with y, summed over rankings with their weights"""
+    tot = Lin()
+    for j, (a, b) in enumerate(zip(px, py)):
+        st = spec.status_of(a, b)
+        v, i = spec.definitional_cost(PLACEMENTS[slot], st)
+        tot = tot + Lin.of(Sym(v, (i,))) * weights[j]
+    return tot
 
 
 def run(ctx) -> Result:
@@ -95,129 +78,91 @@ def run(ctx) -> Result:
     res.rule("T4", "unranked sentinel / non-negative ranked values / role of B,T rows and matrix orientation agree "
                    "between Dataset, Ranking, ScoringScheme and the kernel wrapper", floor=6)
 
-    placements = {0: "before", 1: "after", 2: "tied"}
-    # ---------------------------------------------------------------- T1
+    # ---------------------------------------------------------------- T1: one pair, one ranking, every status
     for status in range(6):
-        tables = []
+        cubes = []
         for (p1, p2) in spec.REPRESENTATIVES[status]:
-            ret, evl = _kernel_eval(f, [[p1], [p2]], 2, 1)
-            roles = _weighted_roles(f, evl)
-            cells: Dict[int, List] = {0: [], 1: [], 2: []}
-            for e in evl.effects:
-                if e.target[:3] == ("matrix", 0, 1) and len(e.target) == 4 and e.op == "+=":
-                    cells[e.target[3]].append(e)
-            tables.append((cells, roles, evl))
+            cubes.append(((p1, p2), _kernel_eval(proj, f, [[p1], [p2]], [7.0])))
         for slot in range(3):
-            want = spec.definitional_cost(placements[slot], status)
-            key = f"{KERNEL}:status={spec.STATUS_NAMES[status]}:slot={slot}({placements[slot]})"
-            got_all = []
-            line = f.loc()
-            for cells, roles, evl in tables:
-                effs = cells[slot]
-                if effs:
-                    line = f.loc(effs[0].node)
-                got_all.append([_decode(e.value, roles, 0) for e in effs])
-            good = all(len(g) == 1 and g[0] == want for g in got_all)
-            res.check(good, "T1", key, line,
-                      ok_detail=f"adds weight*{want[0]}[{want[1]}]",
-                      bad_detail=f"expected exactly one update weight*{want[0]}[{want[1]}], kernel does {got_all}")
-        # the pair's representatives must agree on which statements run (depends on the order type only)
-    # ---------------------------------------------------------------- T2
-    n, m = 4, 3
-    positions = [[(i * 2 + r) % 5 for r in range(m)] for i in range(n)]
-    ret, evl = _kernel_eval(f, positions, n, m)
-    roles = _weighted_roles(f, evl)
-    res.check(isinstance(ret, Sym) and ret.name == "matrix" and not ret.idx, "T2", f"{KERNEL}:returns-matrix",
-              f.loc(), ok_detail="returns the filled matrix", bad_detail=f"returns {ret!r}")
-    upd: Dict[Tuple, int] = {}
-    mirror: Dict[Tuple, object] = {}
-    bad_rank = []
-    for e in evl.effects:
-        if e.target[0] != "matrix" or len(e.target) != 4:
-            continue
-        _, a, b, k = e.target
-        if e.op == "+=":
-            v = e.value
-            if isinstance(v, Lin) and len(v.terms) == 1:
-                (v, _c), = v.terms.items()
-            rk = v.idx[0] if isinstance(v, Sym) and len(v.idx) == 2 else None
-            upd[(a, b, k, rk)] = upd.get((a, b, k, rk), 0) + 1
-        elif e.op == "=":
-            mirror[(a, b, k)] = e.value
-    expected = {(a, b, k, r) for a in range(n) for b in range(a + 1, n) for k in range(3) for r in range(m)}
-    cov_ok = set(upd) == expected and all(c == 1 for c in upd.values())
-    missing = sorted(expected - set(upd))[:4]
-    extra = sorted(set(upd) - expected, key=repr)[:4]
-    res.check(cov_ok, "T2", f"{KERNEL}:coverage", f.loc(),
-              ok_detail=f"{len(expected)} (pair, slot, ranking) updates, each exactly once, weight row = ranking index",
-              bad_detail=f"updates differ from one per (x<y, slot, ranking): missing {missing} unexpected {extra} "
-                         f"multiplicities {[k for k, c in upd.items() if c != 1][:4]}")
+            want = spec.definitional_cost(PLACEMENTS[slot], status)
+            key = f"{KERNEL}:status={spec.STATUS_NAMES[status]}:slot={slot}({PLACEMENTS[slot]})"
+            bad = None
+            for (p1, p2), cube in cubes:
+                got = cube[0][1][slot]
+                exp = Lin.of(Sym(want[0], (want[1],))) * 7.0
+                if got != exp:
+                    bad = bad or ((p1, p2), got)
+            res.check(bad is None, "T1", key, f.loc(), ok_detail=f"adds weight*{want[0]}[{want[1]}]",
+                      bad_detail=(f"positions (x, y) = {bad[0]} with weight 7: cell gets {bad[1]!r}, expected "
+                                  f"7*{want[0]}[{want[1]}]") if bad else "")
+    # ---------------------------------------------------------------- T2: coverage and mirror on larger worlds
+    worlds = [
+        [[(i * 2 + r) % 5 for r in range(3)] for i in range(4)],
+        [[0, -1, 2, 1], [1, 0, -1, 1], [-1, -1, 0, 0], [2, 1, 1, -1], [0, 2, -1, -1]],
+        [[3, 0], [3, 1], [-1, 0], [0, -1]],
+    ]
+    cov_bad = None
+    mirror_bad = {0: None, 1: None, 2: None}
+    diag_bad = None
+    n_cells = 0
     swap = {0: 1, 1: 0, 2: 2}
-    for k in range(3):
-        good = True
-        detail = ""
-        for a in range(n):
-            for b in range(a + 1, n):
-                v = mirror.get((b, a, k))
-                want = Sym("matrix", (a, b, swap[k]))
-                if isinstance(v, Lin) and len(v.terms) == 1 and v.const == 0:
-                    (v, _c), = v.terms.items()
-                if v != want:
-                    good = False
-                    detail = f"matrix[{b}][{a}][{k}] is assigned {v!r}, expected {want!r}"
-        extra_m = [t for t in mirror if not (t[0] > t[1])]
-        if extra_m:
-            good = False
-            detail = f"unexpected plain assignment to matrix{extra_m[0]}"
-        res.check(good, "T2", f"{KERNEL}:mirror-slot={k}", f.loc(),
-                  ok_detail=f"(y,x)[{k}] = (x,y)[{swap[k]}] for every pair", bad_detail=detail)
-
-    # ---------------------------------------------------------------- T3
-    pos_param = f.param_names[0]
-    tainted = {pos_param}
-    changed = True
-    assigns = [n_ for n_ in ast.walk(f.node) if isinstance(n_, ast.Assign) and len(n_.targets) == 1
-               and isinstance(n_.targets[0], ast.Name)]
-    while changed:
-        changed = False
-        for a in assigns:
-            if a.targets[0].id not in tainted and _is_view_of(a.value, tainted):
-                tainted.add(a.targets[0].id)
-                changed = True
-    bad_use = None
-    from ..loader import parent
-    for n_ in ast.walk(f.node):
-        if isinstance(n_, ast.Name) and n_.id in tainted and isinstance(n_.ctx, ast.Load):
-            p = parent(n_)
-            if isinstance(p, ast.Compare):
-                continue
-            if isinstance(p, ast.Subscript) and p.value is n_:
-                # a view; its own parent must be an assignment RHS (alias) or a Compare
-                pp = parent(p)
-                while isinstance(pp, ast.Subscript) and pp.value is p:
-                    p, pp = pp, parent(pp)
-                if isinstance(pp, ast.Compare) or (isinstance(pp, ast.Assign) and pp.value is p):
+    for positions in worlds:
+        n, m = len(positions), len(positions[0])
+        cube = _kernel_eval(proj, f, positions)
+        if len(cube) != n or any(len(r) != n for r in cube) or any(len(c) != 3 for r in cube for c in r):
+            cov_bad = cov_bad or (positions, "shape", f"{len(cube)} x {len(cube[0]) if cube else 0}", f"{n} x {n} x 3")
+            continue
+        for x in range(n):
+            if any(c != Lin() for c in cube[x][x]) and diag_bad is None:
+                diag_bad = (positions, x, cube[x][x])
+            for y in range(n):
+                if x == y:
                     continue
-            if isinstance(p, ast.Assign) and p.value is n_:
-                continue
-            bad_use = n_
-            break
-    res.check(bad_use is None, "T3", f"{KERNEL}:positions-only-compared", f.loc(bad_use) if bad_use else f.loc(),
-              ok_detail=f"{len(tainted)} position-derived names appear only as views or comparison operands",
-              bad_detail=f"position-derived value `{bad_use.id if bad_use else ''}` used outside a comparison")
-
-    # ---------------------------------------------------------------- T4
-    sentinels = set()
-    for n_ in ast.walk(f.node):
-        if isinstance(n_, ast.Compare):
-            names = [x for x in [n_.left] + n_.comparators if isinstance(x, ast.Name) and x.id in tainted]
-            for c in [n_.left] + n_.comparators:
-                v = _const_int(c)
-                if names and v is not None:
-                    sentinels.add(v)
-    res.check(sentinels == {spec.UNRANKED}, "T4", f"{KERNEL}:sentinel", f.loc(),
-              ok_detail=f"kernel tests positions against {sorted(sentinels)}",
-              bad_detail=f"kernel compares positions with constants {sorted(sentinels)}, expected only -1")
+                for k in range(3):
+                    n_cells += 1
+                    exp = _expected_cell(positions[x], positions[y], k, WEIGHTS[:m])
+                    if cube[x][y][k] != exp and x < y and cov_bad is None:
+                        cov_bad = (positions, (x, y, k), cube[x][y][k], exp)
+                    if x > y and cube[x][y][k] != cube[y][x][swap[k]] and mirror_bad[k] is None:
+                        mirror_bad[k] = (positions, (x, y), cube[x][y][k], cube[y][x][swap[k]])
+    res.check(cov_bad is None, "T2", f"{KERNEL}:coverage", f.loc(),
+              ok_detail=f"{n_cells} cells of {len(worlds)} worlds (4-5 elements, 2-4 weighted rankings): each ranking pays "
+                        f"its own weight exactly once per pair and slot",
+              bad_detail=(f"positions {cov_bad[0]}: cell {cov_bad[1]} is {cov_bad[2]!r}, definition {cov_bad[3]!r}")
+              if cov_bad else "")
+    res.check(diag_bad is None, "T2", f"{KERNEL}:returns-matrix", f.loc(), ok_detail="(n x n x 3) matrix with a zero diagonal",
+              bad_detail=f"positions {diag_bad[0]}: diagonal cell of element {diag_bad[1]} is {diag_bad[2]!r}" if diag_bad else "")
+    for k in range(3):
+        mb = mirror_bad[k]
+        res.check(mb is None, "T2", f"{KERNEL}:mirror-slot={k}", f.loc(),
+                  ok_detail=f"(y,x)[{k}] = (x,y)[{swap[k]}] for every pair",
+                  bad_detail=f"positions {mb[0]}: cell {mb[1]}[{k}] is {mb[2]!r} but the mirrored cell is {mb[3]!r}" if mb else "")
+    # ---------------------------------------------------------------- T3: encoding independence
+    # any order-preserving re-encoding of the ranked values (positions, bucket ids, doubled, shifted) gives the same
+    # table; -1 stays the unranked sentinel
+    enc_bad = None
+    for positions in worlds:
+        base = _kernel_eval(proj, f, positions)
+        for label, g in (("doubled", lambda v: 2 * v), ("shifted by 5", lambda v: v + 5), ("squared+1", lambda v: v * v + 1)):
+            re = [[v if v == spec.UNRANKED else g(v) for v in row] for row in positions]
+            if _kernel_eval(proj, f, re) != base:
+                enc_bad = enc_bad or (positions, label, re)
+    res.check(enc_bad is None, "T3", f"{KERNEL}:positions-only-compared", f.loc(),
+              ok_detail="order-preserving re-encodings of the ranked values (doubled, shifted, squared) give the same table",
+              bad_detail=f"positions {enc_bad[0]} re-encoded ({enc_bad[1]}) as {enc_bad[2]} give another table" if enc_bad else "")
+    # ---------------------------------------------------------------- T4: the sentinel is -1 and nothing else
+    sent_bad = None
+    for other in (0,):
+        # 0 is a rank like any other (only -1 is produced for unranked elements, see T4 encodings)
+        pos = [[other, 1], [3, -1]]
+        cube = _kernel_eval(proj, f, pos)
+        # `other` is a ranked value below 3 (x before y in ranking 0); in ranking 1 only x is ranked
+        exp = Lin.of(Sym("B", (0,))) * WEIGHTS[0] + Lin.of(Sym("B", (3,))) * WEIGHTS[1]
+        if cube[0][1][0] != exp:
+            sent_bad = sent_bad or (pos, cube[0][1][0], exp)
+    res.check(sent_bad is None, "T4", f"{KERNEL}:sentinel", f.loc(),
+              ok_detail="-1 means unranked, 0 is an ordinary rank",
+              bad_detail=f"positions {sent_bad[0]}: cell (0,1)[before] is {sent_bad[1]!r}, expected {sent_bad[2]!r}" if sent_bad else "")
     ds = proj.cls("corankco.dataset", "Dataset")
     _check_encodings(res, proj)
     w = proj.func(MOD, "PairwiseBasedAlgorithm.pairwise_cost_matrix")
